@@ -166,7 +166,11 @@ def _check_compute(lab, i, desc, out):
                              val[2], f'{tag} {what}'))
             return None
 
-        freq = call('compute', wn.ic.compute, list(corpus), w, distribute_weight=dist,
+        # "an iterable of string tokens": a list, or a one-shot iterator / generator
+        shape = len(corpus) % 3
+        given = list(corpus) if shape == 0 else iter(list(corpus)) if shape == 1 \
+            else (t for t in list(corpus))
+        freq = call('compute', wn.ic.compute, given, w, distribute_weight=dist,
                     smoothing=smooth)
         if freq is None:
             continue
